@@ -822,6 +822,80 @@ class C17:
             cases.append(gen_long_grid_case(r3, r3.choice([200, 400, 800, 1500]) if tier == "quick" else r3.choice([200, 400, 800, 1500, 3000])))
         return cases
 
+    # --------------------------------------------------------------------------------------------
+    # grids of 2^31 .. 2^32 and more points. The statement is about the listed values and their index ranges; a grid whose abscissae
+    # lie, all but a handful per axis, beyond the last knot has the very values of the small grid made of that handful, at the
+    # corresponding indices, and nothing else (grid evaluation is pointwise in the abscissae: C17_grideval_spec). So the result of the
+    # huge grid must be the result of the small one re-indexed — compared bitwise, C++ member and C wrapper.
+    HUGE_SHAPES = {2: [(65536, 32768), (32768, 65536), (65536, 32767), (65536, 65536), (65536, 49152), (46341, 46342)],
+                   3: [(2048, 2048, 512), (1024, 2048, 1024), (1291, 1291, 1290), (2048, 2048, 1024), (4096, 1024, 767)],
+                   4: [(256, 256, 256, 128), (216, 216, 216, 216), (256, 256, 256, 256), (128, 256, 512, 128)]}
+    def check_huge(self, res, rng, count, out, stats):
+        self.build()
+        pool = [gid for gid, c in res["ids"].items() if 2 <= c.t.ndim <= 4 and gid in res["impl"] and parse_nd(res["impl"][gid]["R"].get("cpp"))
+                and all(1 <= len(g) <= 40 for g in c.grids) and len(c.t.coefs) <= 5000]
+        rng.shuffle(pool)
+        wd = build_dir("cases-C17-huge-%d" % os.getpid())
+        jobs = []
+        for gid in pool[:count]:
+            c = res["ids"][gid]
+            lens = list(rng.choice(self.HUGE_SHAPES[c.t.ndim]))
+            rng.shuffle(lens)
+            if any(n < len(g) for n, g in zip(lens, c.grids)):
+                continue
+            pos = []
+            for n, g in zip(lens, c.grids):
+                ps = set([0, n - 1][:len(g)]) if rng.chance(0.5) else set()
+                while len(ps) < len(g):
+                    ps.add(rng.below(n))
+                pos.append(sorted(ps))
+            hl = "H %s 0 %s" % (gid + "h", " ".join("%d %d %s" % (n, len(g), " ".join("%d:%s" % (p_, hexd(x)) for p_, x in zip(ps, g))) for n, g, ps in zip(lens, c.grids, pos)))
+            f = os.path.join(wd, gid + ".cases")
+            open(f, "w").write("\n".join(c.t.lines() + [hl]) + "\n")
+            jobs.append((gid, f, lens, pos, hl))
+        def one(job):
+            gid, f, lens, pos, hl = job
+            try:
+                p = subprocess.run([self.harness, f], stdout=subprocess.PIPE, stderr=subprocess.PIPE, text=True, timeout=900,
+                                   env=dict(os.environ, ASAN_OPTIONS="detect_leaks=0"))
+                return job, p.returncode, parse_records(p.stdout).get(gid + "h", {"R": {}}), p.stderr[-1500:]
+            except subprocess.TimeoutExpired:
+                return job, -9, {"R": {}}, "timeout"
+        from concurrent.futures import ThreadPoolExecutor
+        with ThreadPoolExecutor(max_workers=4) as ex:
+            results = list(ex.map(one, jobs))
+        shutil.rmtree(wd, ignore_errors=True)
+        hist = {}
+        for (gid, f, lens, pos, hl), rc, rec, err in results:
+            c = res["ids"][gid]
+            total = 1
+            for n in lens:
+                total *= n
+            key = "<2^31" if total < 2 ** 31 else "2^31..2^32-1" if total < 2 ** 32 else ">=2^32"
+            hist[key] = hist.get(key, 0) + 1
+            payload = dict(c.payload(gid), huge_grid={"lengths": lens, "positions": pos, "line": hl[:2000], "points": total})
+            small = parse_nd(res["impl"][gid]["R"].get("cpp"))
+            want = sorted((tuple(pos[d][i] for d, i in enumerate(idx)), hexd(v)) for idx, v in small[2])
+            if rc != 0:
+                out.violation("C17:huge-grid:crash", "grid of %s = %d points (all but %s abscissae beyond the last knot): harness exit %d: %s" % (lens, total, [len(g) for g in c.grids], rc, err[-300:]), payload)
+                continue
+            for who in ("cpp", "c"):
+                entry = "grideval" if who == "cpp" else "splinetable_grideval"
+                nd = parse_nd(rec["R"].get(who))
+                if nd is None:
+                    out.violation("C17:%s:huge-grid-refused" % entry, "grid of %s = %d points whose small counterpart %s evaluates to %d listed values: %s failed (%s)" % (
+                        lens, total, [len(g) for g in c.grids], len(want), entry, " ".join(rec["R"].get(who) or ["no output"])[:200]), payload)
+                    continue
+                got = sorted((idx, hexd(v)) for idx, v in nd[2])
+                if tuple(nd[1]) != tuple(lens):
+                    out.violation("C17:%s:huge-grid-ranges" % entry, "index ranges %s differ from the grid lengths %s" % (nd[1], lens), payload)
+                elif got != want and not (len(got) == len(want) and all(a[0] == b[0] and (a[1] == b[1] or (dfrom(int(a[1], 16)) != dfrom(int(a[1], 16)) and dfrom(int(b[1], 16)) != dfrom(int(b[1], 16)))) for a, b in zip(got, want))):
+                    diff = [x for x in want if x not in got][:2], [x for x in got if x not in want][:2]
+                    out.violation("C17:%s:huge-grid-differs" % entry, "grid of %s = %d points: the listed values are not those of the small grid of the same in-range abscissae re-indexed (missing %s, unexpected %s; %d vs %d entries)" % (
+                        lens, total, diff[0], diff[1], len(got), len(want)), payload)
+        stats["huge_grids"] = {"cases": len(results), "points": hist}
+        return len(results)
+
     def run(self, info, out):
         tier, seed = info["tier"], info["seed"]
         stats = {}
@@ -841,6 +915,7 @@ class C17:
         cases = self.gen(Rng(seed).fork("main"), n, tier)
         res = self.execute(cases, "g")
         ndiff = self.analyse(res, out, stats)
+        nhuge = self.check_huge(res, Rng(seed).fork("huge"), 8 if tier == "quick" else 40, out, stats)
         searched = 0
         fresh = [v for v in out.violations if v[0] not in open_signatures("C17")]
         if (ndiff or not info["proof_ok"]) and not fresh:
@@ -900,7 +975,7 @@ class C17:
                             "impl_ranges": nd[1] if nd else "THROW", "impl_listed": len(nd[2]) if nd else 0, "impl_first": [(list(i), repr(v)) for i, v in nd[2][:3]] if nd else []})
         return {"evaluations": stats.get("evaluations", 0) , "distinct_nontrivial": len(distinct), "rule": self.RULE, "samples": samples,
                 "traces_validated_against_impl": stats.get("traces_validated_against_impl", 0), "compared_values": stats.get("compared_values", 0),
-                "grid_points_checked_against_pointwise": gp, "model_vs_impl_disagreeing_grids": ndiff, "disagreements": stats.get("diffs", [])[:5],
+                "grid_points_checked_against_pointwise": gp, "huge_grids": stats.get("huge_grids"), "model_vs_impl_disagreeing_grids": ndiff, "disagreements": stats.get("diffs", [])[:5],
                 "oracle_failures": stats.get("oracle_failures", 0), "search_volume_after_break": searched, "corpus_cases": stats.get("corpus_cases", 0),
                 "grid_points_skipped_pointwise_NaN_D17": self.d17_skipped[0],
                 "beyond_scope_points_on_last_knot": {"agree_with_pointwise": self.lastknot[0], "differ": self.lastknot[1], "with_nonzero_exact_value": self.lastknot[2],
